@@ -331,7 +331,7 @@ def run(ck):
                 if kind == "EnsembleSampler" and n > 3:
                     continue
                 ic.append(dict(sampler=kind, d=d, n=n, seed=5 + ck.seed, burns=[0, 1] if q else [0, 1, 3], thins=[1, 2] if q else [1, 2, 3],
-                               fractions=[0.1, 0.5, 0.68, 0.9, 0.95, 1.0]))
+                               fractions=[0.0, 0.1, 0.5, 0.68, 0.9, 0.95, 1.0]))
     ck.run_cases("interval", ic)
     import itertools as _it
 
